@@ -71,6 +71,34 @@ def gen_value(rng, selshape, dtype, allow_self):
     return rng.choice([0, 9])
 
 
+def assignable(X):
+    return (G.known(X) and X.ndim >= 1 and 0 not in X.shape and X.dtype.kind in "fiu" and all(int(d) <= 64 for d in X.shape))
+
+
+def gen_inplace_event(rng, recipe, x, X, prop=ID):
+    """One in-place step on pool variable ``x`` (setitem with a scalar value, or ufunc out=) that dask_array
+    accepts on a copy of X; None if none was found.  Shared by the checks that put an in-place step into
+    their histories (C05 tail, C21 resubmission)."""
+    shape = tuple(int(d) for d in X.shape)
+    if rng.random() < 0.8:
+        for _ in range(8):
+            key = gen_key(rng, shape, x, ["basic", "basic", "list", "npmask", "daskmask"])
+            try:
+                with warnings.catch_warnings():
+                    warnings.simplefilter("ignore")
+                    y_ = X.copy()
+                    m_ = H.Machine({"recipe": recipe}, {}, [], prop)
+                    m_.pool = {x: y_}
+                    y_[m_.resolve_key(key)] = 1
+                    _ = y_.chunks
+                return {"ev": "setitem", "var": x, "key": key, "value": rng.choice([0, -1, 7, 3])}
+            except Exception:  # noqa: BLE001
+                continue
+        return None
+    uf = rng.choice(["add", "multiply", "negative", "subtract"])
+    return {"ev": "ufunc_out", "var": x, "ufunc": uf, "args": [x] if uf == "negative" else [x, rng.choice([1, 2, 3])]}
+
+
 def gen(rng, tier):
     ctx = G.Ctx(rng)
     names = sorted(G.OPS)
